@@ -221,3 +221,25 @@ Definition sx_line (l : line) : sx :=
   | LComment => L [I 0] | LBench i k => L [I 1; sx_nat i; sx_nat k] | LRun i b k => L [I 2; sx_nat i; sx_nat b; sx_nat k]
   | LBadMeta => L [I 3] | LHeader => L [I 4] | LData m => L [I 5; sx_meas m] | LGarbage => L [I 6] | LPartial => L [I 7]
   end.
+
+(** executable guards of the "-r, then load" theorem (Proofs/RewriteLoadP.v): the measurement lines of the file come
+    in whole data points (non-total lines of one run and invocation, closed by its total line, nothing in between),
+    and no "# run_id:" record refers to a benchmark record that is not there (the loader would skip it) *)
+Fixpoint wffb_aux (cur : option (nat * nat)) (f : list line) : bool :=
+  match f with
+  | [] => match cur with None => true | Some _ => false end
+  | LData m :: r =>
+      match cur with
+      | None => if m_total m then wffb_aux None r else wffb_aux (Some (m_rid m, m_inv m)) r
+      | Some (rid, inv) => Nat.eqb (m_rid m) rid && Nat.eqb (m_inv m) inv
+                           && (if m_total m then wffb_aux None r else wffb_aux cur r)
+      end
+  | _ :: r => match cur with None => wffb_aux None r | Some _ => false end
+  end.
+Definition wffb (f : list line) : bool := wffb_aux None f.
+
+Fixpoint no_skipsb (s : lstate) (f : list line) : bool :=
+  match f with
+  | [] => true
+  | l :: r => (match l with LRun _ bid _ => Nat.ltb bid (length (benches s)) | _ => true end) && no_skipsb (load_line s l) r
+  end.
